@@ -263,7 +263,65 @@ func checkNow() string {
 	return ""
 }
 
+// checkNowHistory: the clock is read at every call - also when the same
+// runner, the same parsed tree or the same data map is used again, with other
+// evaluations and pauses in between. hist selects the shape of the history.
+func checkNowHistory(hist int) string {
+	texts := []string{"now()", "[now(), millSecond(now())]", "year(now()) > 2000 ? now() : null", "$n = now(), $n", "toDay() <= now() ? now() : 1"}
+	text := texts[hist%len(texts)]
+	p := obs.Parse([]byte(text))
+	if !p.OK() {
+		return fmt.Sprintf("HARNESS: %q does not parse: %v", text, p.Err)
+	}
+	data := map[string]interface{}{"x": 1}
+	shared := formula.NewRunner()
+	if hist%2 == 0 {
+		shared.SetThis(data)
+	}
+	for k := 0; k < 4; k++ {
+		r := shared
+		switch (hist / 2) % 3 {
+		case 1: // fresh runner, same tree and data map
+			r = formula.NewRunner()
+			r.SetThis(data)
+		case 2: // same runner, data handed over again
+			r.SetThis(data)
+		}
+		before := time.Now()
+		out := obs.Eval(r, context.Background(), p.Src.Expression)
+		after := time.Now()
+		v := out.Val
+		if arr, ok := v.([]interface{}); ok && len(arr) == 2 {
+			v = arr[0]
+			if ms, ok := obs.Int(arr[1]); !ok || ms < before.UnixMilli() || ms > after.UnixMilli() {
+				return fmt.Sprintf("evaluation #%d of %q: millSecond(now()) = %s is outside the bracket [%d, %d] of the call", k+1, text, obs.Show(arr[1]), before.UnixMilli(), after.UnixMilli())
+			}
+		}
+		n, ok := v.(time.Time)
+		if out.Err != nil || out.Panic != nil || !ok {
+			return fmt.Sprintf("evaluation #%d of %q -> %s", k+1, text, out)
+		}
+		if n.Before(before) || n.After(after) {
+			return fmt.Sprintf("evaluation #%d of %q on %s: now() = %s is outside the bracket [%s, %s] of the call", k+1, text, []string{"the same runner", "a fresh runner", "the same runner after SetThis"}[(hist/2)%3], n.Format(time.RFC3339Nano), before.Format(time.RFC3339Nano), after.Format(time.RFC3339Nano))
+		}
+		// unrelated work and a pause that the clock must show
+		obs.Eval(r, context.Background(), obs.Parse([]byte("1 + 1")).Src.Expression)
+		time.Sleep(time.Duration(1+k) * time.Millisecond)
+	}
+	return ""
+}
+
 func init() {
+	h.RegisterReplay("c19-now", func(raw json.RawMessage) string {
+		c, err := h.Decode[dateCase](raw)
+		if err != nil {
+			return "bad replay: " + err.Error()
+		}
+		if c.Y == 0 {
+			return checkNow()
+		}
+		return checkNowHistory(int(c.Y) - 1)
+	})
 	h.RegisterReplay("c19-date", func(raw json.RawMessage) string {
 		c, err := h.Decode[dateCase](raw)
 		if err != nil {
@@ -382,7 +440,7 @@ func TestC19Instant(t *testing.T) {
 
 // TestC19Now: now() within the wall-clock bracket, toDay() at its local midnight.
 func TestC19Now(t *testing.T) {
-	run := h.Begin("C19", "now", "200 repetitions: now() lies in the [before, after] bracket of the call; toDay() is local midnight of the bracket's date (skipped if the date changes inside the bracket); counted as non-trivial but not distinct inputs")
+	run := h.Begin("C19", "now", "200 repetitions: now() lies in the [before, after] bracket of the call; toDay() is local midnight of the bracket's date (skipped if the date changes inside the bracket); plus 30 histories x 4 evaluations of one parsed tree (5 texts using now()) on the same runner / a fresh runner / the same runner after SetThis, with unrelated evaluations and 1-4 ms pauses in between: every evaluation's now() lies in its own bracket; counted as non-trivial but not distinct inputs")
 	defer run.End(t)
 	if i, _ := h.Shard(); i != 0 {
 		return
@@ -390,9 +448,17 @@ func TestC19Now(t *testing.T) {
 	for i := 0; i < 200; i++ {
 		run.CountKey(fmt.Sprint("now", i), true, "")
 		if msg := checkNow(); msg != "" {
-			run.Fail("c19-date", dateCase{}, msg)
+			run.Fail("c19-now", dateCase{}, msg)
+			return
+		}
+	}
+	for hist := 0; hist < 30; hist++ {
+		run.CountKey(fmt.Sprint("now-history", hist), true, "now-history")
+		if msg := checkNowHistory(hist); msg != "" {
+			run.Fail("c19-now", dateCase{Y: int64(hist + 1)}, msg)
 			return
 		}
 	}
 	run.Sample("now", "now(), toDay()")
+	run.Sample("now-history", "4 x [now(), millSecond(now())] on one runner")
 }
